@@ -97,11 +97,14 @@ MODULES = {
                   ("chalk-recursive/src/fixed_point.rs", None), ("chalk-recursive/src/fixed_point/stack.rs", None),
                   ("chalk-recursive/src/fixed_point/search_graph.rs", None),
                   ("chalk-recursive/src/fixed_point/cache.rs", None), ("chalk-recursive/src/lib.rs", None)],
+    # everything in chalk-ir/src/lib.rs (Canonical/UCanonical helpers such as `is_trivial_substitution`,
+    # `Substitution`, `Binders`, ... are used by both engines)
+    "IrLib": [("chalk-ir/src/lib.rs", None)],
     "Parser": [("chalk-parse/src/parser.lalrpop", None), ("chalk-parse/src/ast.rs", None),
                ("chalk-parse/src/lib.rs", None)],
 }
 SOLVERS = ["SLG", "Recursive", "Lowering", "Infer", "Unify", "Canon", "UCanon", "Invert", "Truncate", "Combine",
-           "CouldMatch", "Subst", "Fold"]
+           "CouldMatch", "Subst", "Fold", "IrLib"]
 PROPS = {
     "C01": SOLVERS + ["Aggregate"], "C02": SOLVERS + ["FixedPoint"], "C03": SOLVERS + ["AnswerStream"],
     "C04": SOLVERS, "C05": SOLVERS + ["FixedPoint"], "C06": SOLVERS, "C07": SOLVERS,
